@@ -24,6 +24,14 @@ theorem sendInput_rounds (d : Dev σ) (t : Table) (ch : Chan σ) (line : Line) :
   unfold sendInput
   split <;> rename_i heq <;> rw [heq] at h <;> simpa [timedOut] using h
 
+theorem escalateSecond_rounds (c : Cfg) (d : Dev σ) (t : Table) (ch : Chan σ) (l p : Level) :
+    (escalateSecond c d t ch l p).1.rounds = ch.rounds := by
+  have h2 := (io_rounds d t ch c.secondary).1
+  unfold escalateSecond
+  split <;> rename_i heq2 <;> rw [heq2] at h2
+  · exact h2
+  · split <;> exact h2
+
 theorem escalateAuth_rounds (c : Cfg) (d : Dev σ) (t : Table) (ch : Chan σ) (l p : Level) :
     (escalateAuth c d t ch l p).1.rounds = ch.rounds := by
   have h1 := (io_rounds d t ch l.esc).1
@@ -32,12 +40,9 @@ theorem escalateAuth_rounds (c : Cfg) (d : Dev σ) (t : Table) (ch : Chan σ) (l
   · exact h1
   · rename_i ch1 r1
     split
-    · have h2 := (io_rounds d t ch1 c.secondary).1
-      split <;> rename_i heq2 <;> rw [heq2] at h2
-      · exact h2.trans h1
-      · split
-        · exact h2.trans h1
-        · exact h2.trans h1
+    · split
+      · exact h1
+      · exact (escalateSecond_rounds c d t ch1 l p).trans h1
     · exact h1
 
 theorem escalate_rounds (c : Cfg) (d : Dev σ) (t : Table) (ch : Chan σ) (l : Level) :
@@ -73,7 +78,7 @@ theorem acquireIter_frame (c : Cfg) (d : Dev σ) (dest : Name) (w : W σ) :
 
 theorem escalateAuth_ne_fuel (c : Cfg) (d : Dev σ) (t : Table) (ch : Chan σ) (l p : Level) :
     (escalateAuth c d t ch l p).2 ≠ .outOfFuel := by
-  unfold escalateAuth
+  unfold escalateAuth escalateSecond
   repeat' split
   all_goals simp
 
